@@ -170,8 +170,27 @@ func registerNative(ex *Exec) {
 		}
 		return Str{out}, true
 	}
-	I["math.Floor"] = func(ex *Exec, st *State, args []Value, call ssa.CallInstruction) (Value, bool) {
-		return C.FPUn(smt.OFFloor, args[0].(*smt.Term)), true
+	for name, op := range map[string]smt.Op{"math.Floor": smt.OFFloor, "math.Trunc": smt.OFTrunc, "math.Ceil": smt.OFCeil,
+		"math.Abs": smt.OFAbs, "math.Sqrt": smt.OFSqrt, "math.IsNaN": smt.OFIsNaN} {
+		op := op
+		I[name] = func(ex *Exec, st *State, args []Value, call ssa.CallInstruction) (Value, bool) {
+			return C.FPUn(op, args[0].(*smt.Term)), true
+		}
+	}
+	I["math.IsInf"] = func(ex *Exec, st *State, args []Value, call ssa.CallInstruction) (Value, bool) {
+		x := args[0].(*smt.Term)
+		sign := args[1].(*smt.Term)
+		inf := C.FPUn(smt.OFIsInf, x)
+		pos := C.FPCmp(smt.OFLt, C.FPConst(0), x)
+		zero := C.BVConst(0, sign.Sort.W)
+		return C.And(inf, C.Or(C.Eq(sign, zero), C.Ite(C.BVCmp(smt.OSlt, zero, sign), pos, C.Not(pos)))), true
+	}
+	I["math.Inf"] = func(ex *Exec, st *State, args []Value, call ssa.CallInstruction) (Value, bool) {
+		sign := args[0].(*smt.Term)
+		return C.Ite(C.BVCmp(smt.OSle, C.BVConst(0, sign.Sort.W), sign), C.FPConst(math.Inf(1)), C.FPConst(math.Inf(-1))), true
+	}
+	I["math.NaN"] = func(ex *Exec, st *State, args []Value, call ssa.CallInstruction) (Value, bool) {
+		return C.FPConst(math.NaN()), true
 	}
 }
 
